@@ -2,6 +2,7 @@ package main
 
 import (
 	"go/ast"
+	"go/token"
 	"go/types"
 )
 
@@ -158,4 +159,95 @@ func containsAll(s string, subs ...string) bool {
 		}
 	}
 	return true
+}
+
+func init() {
+	register("C01.R13", "an injector file is listed once: generateInjectors appends the file of an injector to the list handed to the declaration copier exactly when the list is empty or its LAST element is another file (files are visited one after the other, so equal files are adjacent); listing a file twice copies its other declarations twice",
+		func(c *Ctx, r *R) {
+			fi := r.Need(c.Fn(c.W, "generateInjectors"), "generateInjectors")
+			if fi == nil {
+				return
+			}
+			n := 0
+			fi.inspect(fi.Decl.Body, func(nd ast.Node) bool {
+				as, ok := nd.(*ast.AssignStmt)
+				if !ok || len(as.Lhs) != 1 || len(as.Rhs) != 1 {
+					return true
+				}
+				ap := fi.isBuiltin(as.Rhs[0], "append")
+				if ap == nil || len(ap.Args) != 2 || types.TypeString(fi.Info.TypeOf(as.Lhs[0]), nil) != "[]*go/ast.File" {
+					return true
+				}
+				list, file := fi.varOf(as.Lhs[0]), fi.varOf(ap.Args[1])
+				if list == nil || file == nil || fi.varOf(ap.Args[0]) != list {
+					return true
+				}
+				n++
+				// the file is the variable of an enclosing loop over the package's files
+				inFileLoop := false
+				for l := fi.enclosingLoop(as); l != nil; l = fi.enclosingLoop(l) {
+					if rs, ok := l.(*ast.RangeStmt); ok && rs.Value != nil && fi.varOf(rs.Value) == file {
+						inFileLoop = true
+					}
+				}
+				r.Check(inFileLoop, "generateInjectors/lists-the-visited-file", as.Pos(), "the listed file is the one being visited")
+				atom := func(e ast.Expr) (string, bool) {
+					be, ok := ast.Unparen(e).(*ast.BinaryExpr)
+					if !ok {
+						return "", false
+					}
+					if l := fi.isBuiltin(be.X, "len"); l != nil && fi.varOf(l.Args[0]) == list && types.ExprString(be.Y) == "0" {
+						switch be.Op {
+						case token.EQL:
+							return "empty", true
+						case token.GTR, token.NEQ:
+							return "empty", false
+						}
+					}
+					if be.Op == token.EQL || be.Op == token.NEQ {
+						x, y := be.X, be.Y
+						if fi.varOf(y) != file {
+							x, y = y, x
+						}
+						if ix, ok := ast.Unparen(x).(*ast.IndexExpr); ok && fi.varOf(y) == file && fi.varOf(ix.X) == list {
+							// the index is len(list)-1
+							if sub, ok := ast.Unparen(fi.deref(ix.Index)).(*ast.BinaryExpr); ok && sub.Op == token.SUB && types.ExprString(sub.Y) == "1" {
+								if l := fi.isBuiltin(fi.deref(sub.X), "len"); l != nil && fi.varOf(l.Args[0]) == list {
+									return "lastIsOther", be.Op == token.NEQ
+								}
+							}
+						}
+					}
+					return "", false
+				}
+				var gs []Cond
+				for _, g := range fi.Guards(as) {
+					if _, ok := atom(g.Expr); ok || g.Kind == "bool" && (isLogical(g.Expr)) {
+						gs = append(gs, g)
+					}
+				}
+				okT := len(gs) > 0
+				for _, empty := range []bool{false, true} {
+					for _, other := range []bool{false, true} {
+						v, ok := evalGuards(gs, map[string]bool{"empty": empty, "lastIsOther": other}, atom)
+						if !ok || v != (empty || other) {
+							okT = false
+						}
+					}
+				}
+				r.Check(okT, "generateInjectors/listed-once", as.Pos(), "the file is appended exactly when the list is empty or ends in another file")
+				return true
+			})
+			r.Floor("injector-file list appends", n, 1)
+		})
+}
+
+func isLogical(e ast.Expr) bool {
+	switch x := ast.Unparen(e).(type) {
+	case *ast.BinaryExpr:
+		return x.Op == token.LAND || x.Op == token.LOR
+	case *ast.UnaryExpr:
+		return x.Op == token.NOT
+	}
+	return false
 }
